@@ -8,9 +8,12 @@ globals `MAX_DEPTH` and `_CURRENT_DEPTH` are substituted for the duration of a c
 """
 import ast
 import inspect
+import json
 import threading
 import types
+import warnings
 
+from .. import common as C
 from ..e2 import E2Prop
 
 METHODS = ["loky", "loky_init_main", "spawn", "fork", "forkserver"]
@@ -132,10 +135,10 @@ def real_check(sm, max_depth, cur):
     with _Globals(max_depth, cur) as m:
         ctx = types.SimpleNamespace(get_start_method=lambda: sm)
         try:
-            r = m._check_max_depth(ctx)
+            m._check_max_depth(ctx)          # the return value (if any) is not part of the property
         except Exception as e:
             return _err(m, e)
-        return "ok" if r is None else f"returned-{r!r}"
+        return "ok"
 
 
 def real_create(sm, max_depth, cur, workers, accept_env):
@@ -156,7 +159,10 @@ def real_create(sm, max_depth, cur, workers, accept_env):
         try:
             if ctx.created:
                 return f"constructor-spawned={len(ctx.created)}", []
-            ex._adjust_process_count()
+            try:
+                ex._adjust_process_count()
+            except Exception as e:
+                return f"constructed-then-spawn-raised {_err(m, e)}", []
             depths = [p.args[-1] for p in ctx.created]
             ok = (len(ctx.created) == workers == len(ctx.started)
                   and all(p.target is m._process_worker and len(p.args) == 8 for p in ctx.created))
@@ -218,6 +224,111 @@ def real_nest(max_depth, cur, sms):
     return f"{d} ok"
 
 
+def _depth_index(m):
+    """position of `current_depth` among the arguments of the real `_process_worker`"""
+    try:
+        return list(inspect.signature(m._process_worker).parameters).index("current_depth")
+    except ValueError:
+        return -1
+
+
+def real_life(sm, max_depth, d0, workers, ops, accept_env):
+    """one executor object through its life in a process whose depth global changes.
+
+    The real (reusable) executor is constructed on the process-less context while `_CURRENT_DEPTH == d0`;
+    then, op by op: `["d", n]` the process assigns `_CURRENT_DEPTH = n` (what `_process_worker` does at
+    start-up, after the initializer); `["e"]` the spawn of the first submit (`_ensure_executor_running`,
+    the manager thread is not started); `["r", n]` the real `_resize(n)` (surplus workers have left
+    beforehand); `["x", k]` k workers leave and the manager's respawn (`_adjust_process_count` under the
+    management lock).  Observed: the `current_depth` argument of every process spawned by each op."""
+    from loky.reusable_executor import _ReusablePoolExecutor
+    with _Globals(max_depth, d0) as m:
+        ctx = _FakeCtx(sm, accept_env)
+        try:
+            ex = _ReusablePoolExecutor(threading.RLock(), max_workers=workers, context=ctx)
+        except Exception as e:
+            return _err(m, e) + (f" spawned={len(ctx.created)}" if ctx.created else "")
+        idx = _depth_index(m)
+        started = [False]
+
+        def fake_manager():
+            started[0] = True
+            if ex._executor_manager_thread is None:
+                ex._executor_manager_thread = types.SimpleNamespace(is_alive=lambda: True, join=lambda *a: None)
+        ex._start_executor_manager_thread = fake_manager
+        try:
+            batches = []
+            for op in ops:
+                n0 = len(ctx.created)
+                try:
+                    bad = _life_op(m, ex, op, started)
+                except Exception as e:
+                    return f"constructed-then-{op[0]}-raised {_err(m, e)}"
+                if bad:
+                    return bad
+                new = ctx.created[n0:]
+                if any(p.target is not m._process_worker or p not in ctx.started for p in new):
+                    return "spawn-shape"
+                batches.append(",".join(repr(p.args[idx]) for p in new) or "-")
+            return "ok " + (";".join(batches) or ".")
+        finally:
+            ex._executor_manager_thread = None
+            _close_executor(ex)
+
+
+def _life_op(m, ex, op, started):
+    """one event of the life of executor `ex` (see `real_life`); returns an error line or None"""
+    k = op[0]
+    if k == "d":
+        m._CURRENT_DEPTH = op[1]
+    elif k == "e":
+        ex._ensure_executor_running()
+    elif k == "r":
+        if started[0]:
+            for pid in sorted(ex._processes)[op[1]:]:
+                ex._processes.pop(pid)
+        with warnings.catch_warnings():
+            warnings.simplefilter("ignore")
+            ex._resize(op[1])
+    elif k == "x":
+        if started[0]:
+            for pid in sorted(ex._processes)[:op[1]]:
+                ex._processes.pop(pid)
+            # as the executor manager thread does it: from another thread, under the management lock
+            err = []
+
+            def respawn():
+                try:
+                    with ex._processes_management_lock:
+                        ex._adjust_process_count()
+                except Exception as e:  # noqa: BLE001
+                    err.append(e)
+            t = threading.Thread(target=respawn)
+            t.start()
+            t.join()
+            if err:
+                raise err[0]
+    else:
+        return "bad-op"
+    return None
+
+
+def real_startup(fresh, depth_arg):
+    """the real `_process_worker` on a copy of the module globals in which `_CURRENT_DEPTH == fresh` (0 in
+    a new interpreter): the value of the global while the initializer runs, and after start-up"""
+    m = _pe()
+    g = dict(m.__dict__)
+    g["_python_exit"] = lambda: None
+    g["_enable_faulthandler_if_needed"] = lambda: None
+    g["_CURRENT_DEPTH"] = fresh
+    seen = []
+    w = types.FunctionType(m._process_worker.__code__, g, "_process_worker",
+                           m._process_worker.__defaults__, m._process_worker.__closure__)
+    w(_SentinelQueue(), _SentinelQueue(), lambda: seen.append(g["_CURRENT_DEPTH"]), (), threading.Lock(), None,
+      _ExitLock(), depth_arg)
+    return f"{seen[0] if seen else 'initializer-not-run'} {g['_CURRENT_DEPTH']}"
+
+
 _ENV_CODE = []
 
 
@@ -263,12 +374,17 @@ class DepthPart(E2Prop):
     driver = "depth_driver"
     n_cases = {"quick": 6000, "thorough": 150000}
     search_cases = {"quick": 6000, "thorough": 60000}
-    rule = ("cases = (MAX_DEPTH, depth, start method, #workers, env string, chain of start methods); corpus = the "
-            "full grid MAX -3..12 x depth 0..14 x {loky, loky_init_main, spawn, fork, forkserver} + env strings + chains "
-            "to limit+1; generated = boundary-biased (depth = MAX-1, MAX, MAX+1; 0; huge) values. Per case the real "
-            "_check_max_depth, the real constructor + _adjust_process_count on a process-less context, the real "
-            "MAX_DEPTH assignment and a chain through constructor/spawn/_process_worker are run. Non-trivial = the "
-            "guard raises, or depth >= 1, or a chain of >= 2 levels. Distinct by full input.")
+    rule = ("cases = (MAX_DEPTH, depth, start method, #workers, env string, chain of start methods, life of one executor); "
+            "corpus = the full grid MAX -3..12 x depth 0..14 x {loky, loky_init_main, spawn, fork, forkserver} + env strings + "
+            "chains to limit+1 + lives (constructed while the depth global is 0 / the own depth / another value, the global "
+            "assigned before or after the first spawn, then first submit / resize up, down, same / respawn after time-outs); "
+            "generated = boundary-biased (depth = MAX-1, MAX, MAX+1; 0; huge) values and random lives of 0-7 events. Per case "
+            "the real _check_max_depth (raises or not: a return value is not judged), the real constructor + "
+            "_adjust_process_count on a process-less context, the real MAX_DEPTH assignment, a chain through "
+            "constructor/spawn/_process_worker, and one real reusable executor driven through its life "
+            "(_ensure_executor_running, _resize, _adjust_process_count) while the module global _CURRENT_DEPTH is reassigned, "
+            "recording the current_depth argument of every spawned process. Non-trivial = the guard raises, or depth >= 1, "
+            "or a chain of >= 2 levels, or a life whose depth global changes before a spawn. Distinct by full input.")
     assumptions = [
         "the depth guard is exercised in-process on a context that cannot start processes (threading locks, recording Process); "
         "that real workers receive and keep the shipped depth across reuse/respawn/resize is the executor-protocol part's claim",
@@ -278,9 +394,25 @@ class DepthPart(E2Prop):
 
     # ---- cases
     @staticmethod
-    def mk(mx, d, sm, workers=1, env="absent", chain=None, start=0, accept_env=True):
-        return {"max": mx, "d": d, "sm": sm, "workers": workers, "env": env,
-                "chain": list(chain) if chain is not None else [sm], "start": start, "accept_env": accept_env}
+    def mk(mx, d, sm, workers=1, env="absent", chain=None, start=0, accept_env=True, life=None, startup=None):
+        c = {"max": mx, "d": d, "sm": sm, "workers": workers, "env": env,
+             "chain": list(chain) if chain is not None else [sm], "start": start, "accept_env": accept_env,
+             "life": life if life is not None else {"d0": d, "ops": [["e"]]}}
+        if startup is not None:
+            c["startup"] = list(startup)
+        return c
+
+    # lives of one executor: what happens between its construction and its spawns
+    LIVES = [
+        lambda d, w: [["e"]],                                              # constructed and used at once
+        lambda d, w: [["d", d], ["e"]],                                    # depth learnt before the first submit
+        lambda d, w: [["d", d], ["e"], ["r", w + 2]],                      # ... workers added by a resize
+        lambda d, w: [["d", d], ["e"], ["x", 1]],                          # ... respawn after an idle time-out
+        lambda d, w: [["e"], ["d", d], ["x", w]],                          # spawned before, all respawned after
+        lambda d, w: [["e"], ["d", d], ["r", w + 1], ["r", 1], ["r", w + 3]],
+        lambda d, w: [["r", w + 1], ["d", d], ["e"]],                      # resized before it ever started
+        lambda d, w: [["d", d], ["e"], ["r", w], ["x", 2], ["d", d + 1], ["x", 1]],
+    ]
 
     def corpus(self):
         cs = []
@@ -289,8 +421,13 @@ class DepthPart(E2Prop):
                 for sm in METHODS:
                     # the chain of the case: from the root, as many levels as MAX+1 (or d+1 if unlimited)
                     n = (mx + 1) if mx >= 1 else (d % 5) + 1
-                    cs.append(self.mk(mx, d, sm, workers=1 + (d + mx) % 3, chain=[sm] * n,
-                                      accept_env=(d + mx) % 2 == 0))
+                    w = 1 + (d + mx) % 3
+                    # the executor of the case's life is constructed before the process knows its depth (global
+                    # still 0, e.g. inside a worker initializer), or at its own depth
+                    d0 = 0 if (d + METHODS.index(sm)) % 2 == 0 else d
+                    ops = self.LIVES[(d + 3 * mx + METHODS.index(sm)) % len(self.LIVES)](d, w)
+                    cs.append(self.mk(mx, d, sm, workers=w, chain=[sm] * n,
+                                      accept_env=(d + mx) % 2 == 0, life={"d0": d0, "ops": ops}))
         for env in ("absent", "0", "1", "10", "-1", "3", " 7 ", "+4", "1_0", "abc", "", "2.5", "0x10", "١٢", "10\n"):
             cs.append(self.mk(10, 0, "loky", env=env))
         # mixed chains: fork first then others, others then fork, other strings
@@ -304,6 +441,13 @@ class DepthPart(E2Prop):
         cs.append(self.mk(4, 7, "loky", chain=["loky"], start=7))
         for sm in ("Fork", "fork ", "FORK", "threading", "forkserver2"):
             cs.append(self.mk(3, 2, sm, chain=[sm] * 4))
+        # every life shape, constructed at depth-global 0 / own depth / a larger stale value, for a few limits
+        for mx in (1, 2, 3, 10, 0):
+            for d in (0, 1, 2, 3, 9):
+                for j, mkops in enumerate(self.LIVES):
+                    for d0 in sorted({0, d, d + 2}):
+                        cs.append(self.mk(mx, d, "loky" if j % 2 else "spawn", workers=1 + j % 3,
+                                          life={"d0": d0, "ops": mkops(d, 1 + j % 3)}))
         cs.append(self.mk(10**9, 10**9 - 1, "loky", chain=["loky", "loky"], start=10**9 - 1))
         cs.append(self.mk(2**70, 2**70, "spawn", chain=["spawn"], start=2**70 - 1))
         return cs
@@ -337,7 +481,98 @@ class DepthPart(E2Prop):
                 chain[rng.randrange(n)] = "fork"
         else:
             chain = [rng.choice(METHODS) for _ in range(n)]
-        return self.mk(mx, d, sm, workers, env, chain, start, rng.random() < 0.5)
+        startup = None
+        if self._startup_mode and rng.random() < 0.1:
+            startup = [rng.choice([0, 0, 0, d]), d + 1]
+        return self.mk(mx, d, sm, workers, env, chain, start, rng.random() < 0.5, life=self.gen_life(rng, mx, d, base),
+                       startup=startup)
+
+    @staticmethod
+    def gen_life(rng, mx, d, base):
+        """the life of one executor: value of the depth global at construction (0 = not known yet, the own depth,
+        or anything else), then 0-7 events"""
+        d0 = rng.choice([0, 0, d, d, max(0, base - 1), rng.randint(0, 12)])
+
+        def depth():
+            return max(0, rng.choice([d, d, d0, 0, 1, base - 1, base, base + 1, rng.randint(0, 15)]))
+        ops = []
+        for _ in range(rng.choice([0, 1, 2, 2, 3, 3, 4, 5, 7])):
+            r = rng.random()
+            if r < 0.3:
+                ops.append(["d", depth()])
+            elif r < 0.55:
+                ops.append(["e"])
+            elif r < 0.8:
+                ops.append(["r", rng.randint(1, 5)])
+            else:
+                ops.append(["x", rng.randint(1, 3)])
+        if rng.random() < 0.5 and not any(o[0] == "e" for o in ops):
+            ops.insert(rng.randint(0, len(ops)), ["e"])
+        return {"d0": d0, "ops": ops}
+
+    # ---- the initializer's view of the depth (cases with a "startup" entry)
+    # On the pinned tree `_process_worker` runs the initializer BEFORE it assigns `_CURRENT_DEPTH`: the oracle fails
+    # on every such case (see `initializer_sees_stale_depth` in Props/C19Depth.lean).  The cases are generated only
+    # when known_findings.json lists the defect (predicate "initializer_depth"): under "findings" the failures are
+    # counted as runs of that finding, under "fixed" they are violations again.
+    PREDICATE = "initializer_depth"
+    _startup_mode = None
+
+    @staticmethod
+    def initializer_depth(case):
+        """delimiting predicate: the case observes the depth global while the worker's initializer runs"""
+        return "startup" in case
+
+    def startup_cases(self):
+        return [self.mk(mx, d, "loky", startup=[0, d + 1]) for mx in (2, 10, 0) for d in range(0, 4)]
+
+    def _set_mode(self, ctx):
+        self._startup_mode = None
+        self._finding_id = None
+        for kind in ("known", "fixed"):
+            for f in getattr(ctx, kind, []):
+                if f.get("predicate") == self.PREDICATE:
+                    self._startup_mode, self._finding_id = kind, f["id"]
+                    return
+
+    def _split_known(self, failures, corr):
+        keep = []
+        for f in failures:
+            if (self._startup_mode == "known" and self.initializer_depth(f["input"])
+                    and str(f["what"]).startswith("[initializer-depth]")):
+                corr.known_hits[self._finding_id] = corr.known_hits.get(self._finding_id, 0) + 1
+            else:
+                keep.append(f)
+        return keep
+
+    def correspondence(self, ctx, corr):
+        self._set_mode(ctx)
+        corr.rule = self.rule
+        cases = list(self.corpus()) + (self.startup_cases() if self._startup_mode else [])
+        ncorp = len(cases)
+        rng = C.rng_for(ctx.seed, self.id, "gen")
+        cases += [self.gen(rng, i) for i in range(self.n_cases[ctx.tier])]
+        impl, model = self.evaluate(cases, corr)
+        corr.extra["corpus_cases"] = ncorp
+        for j in [0, len(cases) // 3, 2 * len(cases) // 3, len(cases) - 1]:
+            corr.samples.append({"input": cases[j], "impl": impl[j][0], "model": None if model is None else model[j]})
+        corr.failures = self._split_known(corr.failures, corr)
+        corr.failures = [self.shrink(f, "oracle") for f in corr.failures[:3]] + corr.failures[3:]
+        corr.disagreements.sort(key=lambda d: len(json.dumps(d["input"])))
+
+    def search(self, ctx, corr, broken):
+        self._set_mode(ctx)
+        cands = [d["input"] for d in corr.disagreements[:200]]
+        extra = []
+        for c in cands:
+            extra += list(self.shrink_candidates(c))[:20]
+        rng = C.rng_for(ctx.seed, self.id, "search")
+        more = [self.gen(rng, i) for i in range(self.search_cases[ctx.tier])]
+        c2 = C.Corr()
+        self.evaluate(cands + extra + more, c2, with_model=False)
+        corr.extra["search_cases"] = c2.evaluations
+        fails = self._split_known(c2.failures, corr)
+        return self.shrink(fails[0], "oracle") if fails else None
 
     # ---- model side
     @staticmethod
@@ -354,18 +589,28 @@ class DepthPart(E2Prop):
     def model_lines(self, c):
         sm = self._smtok(c["sm"])
         chain = ",".join(self._smtok(s) for s in c["chain"]) or "-"
-        return [f"check {sm} {c['max']} {c['d']}",
-                f"create {sm} {c['max']} {c['d']}",
-                f"env {self._envtok(c['env'])}",
-                f"nest {c['max']} {c['start']} {chain}"]
+        life = c["life"]
+        ops = ",".join("e" if o[0] == "e" else f"{o[0]}{o[1]}" for o in life["ops"]) or "-"
+        lines = [f"check {sm} {c['max']} {c['d']}",
+                 f"create {sm} {c['max']} {c['d']}",
+                 f"env {self._envtok(c['env'])}",
+                 f"nest {c['max']} {c['start']} {chain}",
+                 f"life {sm} {c['max']} {life['d0']} {c['workers']} {ops}"]
+        if "startup" in c:
+            lines.append(f"startup {c['startup'][0]} {c['startup'][1]}")
+        return lines
 
     # ---- implementation side
     def impl(self, c):
         line, _ = real_create(c["sm"], c["max"], c["d"], c["workers"], c["accept_env"])
-        return [real_check(c["sm"], c["max"], c["d"]),
-                line,
-                real_env(None if c["env"] == "absent" else c["env"]),
-                real_nest(c["max"], c["start"], c["chain"])]
+        out = [real_check(c["sm"], c["max"], c["d"]),
+               line,
+               real_env(None if c["env"] == "absent" else c["env"]),
+               real_nest(c["max"], c["start"], c["chain"]),
+               real_life(c["sm"], c["max"], c["life"]["d0"], c["workers"], c["life"]["ops"], c["accept_env"])]
+        if "startup" in c:
+            out.append(real_startup(*c["startup"]))
+        return out
 
     # ---- the statement of C19, independent of the Lean model
     @staticmethod
@@ -376,9 +621,9 @@ class DepthPart(E2Prop):
         return mx <= 0 or d < mx
 
     def oracle(self, c, out):
-        if len(out) != 4:
+        if len(out) != (6 if "startup" in c else 5):
             return f"harness: {out}"
-        chk, crt, env, nest = out
+        chk, crt, env, nest, life = out[:5]
         mx, d, sm = c["max"], c["d"], c["sm"]
         ok = self.allowed(sm, mx, d)
         if ok and chk != "ok":
@@ -413,15 +658,58 @@ class DepthPart(E2Prop):
         if parts[0] != str(cur) or parts[1] != verdict:
             return (f"chain {c['chain']} from depth {c['start']} with MAX_DEPTH={mx}: reached '{nest}', "
                     f"the statement gives depth {cur} then {verdict}")
+        # life of one executor: "the depth a worker sees is exactly one more than that of the process that created
+        # its executor, regardless of worker reuse, respawn or resize" -- whenever the worker is spawned
+        d0, ops = c["life"]["d0"], c["life"]["ops"]
+        if not self.allowed(sm, mx, d0):
+            if not life.startswith("LokyRecursionError") or "spawned" in life:
+                return f"constructor at depth {d0} under {sm!r} with MAX_DEPTH={mx}: {life}, LokyRecursionError expected"
+        else:
+            if not life.startswith("ok "):
+                return f"executor constructed at depth {d0} under {sm!r} with MAX_DEPTH={mx}, then {ops}: {life}"
+            batches = [] if life == "ok ." else life[3:].split(";")
+            if len(batches) != len(ops):
+                return f"harness: life {ops} -> {life}"
+            cur = d0
+            for i, (op, b) in enumerate(zip(ops, batches)):
+                if op[0] == "d":
+                    cur = op[1]
+                for x in ([] if b == "-" else b.split(",")):
+                    if x != str(cur + 1):
+                        how = {"e": "the first submit", "r": f"the resize to {op[-1]}", "x": "the respawn after a time-out",
+                               "d": "?"}[op[0]]
+                        return (f"executor constructed while the process's depth was {d0}; events {ops[:i + 1]}: a worker "
+                                f"spawned by {how} is given depth {x} although its creating process is at depth {cur} "
+                                f"at that moment (must be {cur + 1})")
+        if "startup" in c:
+            arg = c["startup"][1]
+            seen = out[5].split(" ")
+            if seen != [str(arg), str(arg)]:
+                return (f"[initializer-depth] a worker started with current_depth={arg} in an interpreter whose depth global "
+                        f"is {c['startup'][0]}: the initializer runs with _CURRENT_DEPTH={seen[0]}, tasks with "
+                        f"{seen[-1]}; both must be {arg} (an executor created in the initializer passes the guard and ships "
+                        f"depth {seen[0]}+1 whatever the true depth)")
         return None
 
+    @staticmethod
+    def _changes_before_spawn(c):
+        """the life assigns the depth global a new value and spawns afterwards"""
+        cur, changed = c["life"]["d0"], False
+        for op in c["life"]["ops"]:
+            if op[0] == "d":
+                changed = changed or op[1] != cur
+                cur = op[1]
+            elif changed:
+                return True
+        return False
+
     def nontrivial(self, c, out):
-        if len(out) != 4:
+        if len(out) < 5:
             return True
-        return out[0] != "ok" or c["d"] >= 1 or len(c["chain"]) >= 2
+        return out[0] != "ok" or c["d"] >= 1 or len(c["chain"]) >= 2 or self._changes_before_spawn(c)
 
     def classify(self, c, out):
-        if len(out) != 4:
+        if len(out) < 5:
             return ["harness-exc"]
         mx, d = c["max"], c["d"]
         ks = ["sm=" + (c["sm"] if c["sm"] in METHODS else "other"),
@@ -431,9 +719,27 @@ class DepthPart(E2Prop):
                              "max" if d == mx else "above"),
               "env=" + self._envtok(c["env"]) if c["env"] == "absent" or parse_int(c["env"]) is None else "env=int",
               "nest=" + "-".join(out[3].split(" ")[1:])]
+        life = c["life"]
+        ks.append("life.ctor-depth=" + ("own" if life["d0"] == d else "zero" if life["d0"] == 0 else "other"))
+        ks.append("life=" + ("refused" if not out[4].startswith("ok") else
+                             "depth-changes-before-spawn" if self._changes_before_spawn(c) else "constant-depth"))
+        ks += sorted({"life.op=" + {"d": "set-depth", "e": "first-submit", "r": "resize", "x": "respawn"}[o[0]]
+                      for o in life["ops"]})
+        if "startup" in c:
+            ks.append("startup")
         return ks
 
     def shrink_candidates(self, c):
+        ops = c["life"]["ops"]
+        for i in range(len(ops)):
+            yield dict(c, life=dict(c["life"], ops=ops[:i] + ops[i + 1:]))
+        if c["life"]["d0"] not in (0, c["d"]):
+            yield dict(c, life=dict(c["life"], d0=0))
+        for i, o in enumerate(ops):
+            if len(o) > 1 and o[1] > 1:
+                yield dict(c, life=dict(c["life"], ops=ops[:i] + [[o[0], o[1] - 1]] + ops[i + 1:]))
+        if "startup" in c and c["startup"][1] > 1:
+            yield dict(c, startup=[c["startup"][0], c["startup"][1] - 1])
         if c["workers"] != 1:
             yield dict(c, workers=1)
         if c["env"] != "absent":
